@@ -10,6 +10,9 @@ import shutil
 import subprocess
 
 OUT = "/verif/seeded"
+# changes judged outside their property's quantifier (not kept as seeded breaks); reason shown in INDEX.md
+OUT_OF_SCOPE = {"C20-r3-m3": "needs Codec(cumulative_payloads[d]=False): the property quantifies over format descriptors and imposed shapes "
+                             "and fixes the layout as 'cumulative occupancies as segment ends'; the flag that asks for another layout is outside it"}
 ROUNDS = [("/var/tmp/mutants", "/var/tmp/seedres", ""), ("/var/tmp/mutants2", "/var/tmp/seedres2", "r2"),
           ("/var/tmp/mutants3", "/var/tmp/seedres3", "r3")]
 
@@ -39,6 +42,9 @@ def main():
                 meta = {}
             status = "caught" if chk.get("exit") == 1 else ("MISSED" if chk.get("exit") == 0 else f"exit {chk.get('exit')}")
             label = (tag + "-" if tag else "") + m
+            if f"{prop}-{label}" in OUT_OF_SCOPE:
+                rows.append((prop, label, "not kept: " + OUT_OF_SCOPE[f"{prop}-{label}"], "n/a", "", (meta.get("summary") or "")[:110], (meta.get("needs") or "")[:110]))
+                continue
             if ok:
                 dst = f"{OUT}/{prop}-{label}"
                 os.makedirs(dst, exist_ok=True)
@@ -66,7 +72,7 @@ def main():
         for r in rows:
             fh.write("| " + " | ".join(str(x).replace("|", "/").replace("\n", " ") for x in r) + " |\n")
     print(f"{len(rows)} mutants indexed; {sum(1 for r in rows if r[2] == 'confirmed')} confirmed; "
-          f"not caught: {[r[0] + '-' + r[1] for r in rows if r[3] != 'caught']}")
+          f"not caught: {[r[0] + '-' + r[1] for r in rows if r[3] not in ('caught', 'n/a')]}")
 
 
 if __name__ == "__main__":
